@@ -106,7 +106,9 @@ def run_op(op, c1, c2):
 
 
 class Monitor:
-    """A forked child that kills this worker (SIGKILL) when one op overruns its budget by 10 s.
+    """A forked child that kills this worker (SIGKILL) when one op overruns its budget by 10 s
+    (budgets are generous -- op timeout + 100 s -- so that a cold numba cache or a loaded machine
+    is not mistaken for a hang; the parent re-runs a killed case alone before calling it a hang).
     Compiled (njit) loops hold the GIL and ignore SIGALRM, so neither a signal handler nor a
     watchdog thread can stop them.  The op in flight is recorded in <out>.hang for the report."""
 
@@ -163,7 +165,7 @@ def main():
             continue
         rr = []
         for op in case["ops"]:
-            mon.beat(float(op.get("timeout", 20)) + 5.0, dict(case=ci, op=op))
+            mon.beat(float(op.get("timeout", 20)) + 100.0, dict(case=ci, op=op))
             rr.append(run_op(op, c1, c2))
         res.append(rr)
     mon.beat(120.0, dict(case=-1, op="write"))
